@@ -66,9 +66,16 @@ def run_check(prop, tier, seed, replay=None, update_baseline=False):
     if not modnames:
         print('no contracts registered for %s' % prop)
         return 3
-    for m in modnames:
-        importlib.import_module(m)
     from pyvc.contract import REG
+    # every task is verified in a process that has loaded only the module that registered it (plus whatever
+    # that module imports itself): contract modules register global models and hooks, and a task must not
+    # change its meaning because another area's module happens to serve the same property
+    owner = {}
+    for m in modnames:
+        before = set(REG.task_keys())
+        importlib.import_module(m)
+        for k in set(REG.task_keys()) - before:
+            owner[k] = m
     tasks = [k for k in REG.task_keys() if prop in REG.task(k).prop]
     if not tasks:
         print('property %s: zero verification tasks -- vacuous, refusing to report success' % prop)
@@ -78,7 +85,7 @@ def run_check(prop, tier, seed, replay=None, update_baseline=False):
     ctx = mp.get_context('spawn')
     out = {}
     with cf.ProcessPoolExecutor(max_workers=nproc, mp_context=ctx) as pool:
-        for key, results, meta, err in pool.map(_worker, [(modnames, k, budget) for k in tasks]):
+        for key, results, meta, err in pool.map(_worker, [([owner.get(k, modnames[0])], k, budget) for k in tasks]):
             out[key] = (results, meta, err)
 
     known = load_json(os.path.join(HERE, 'known_findings.json'), {'findings': []})['findings']
@@ -206,8 +213,9 @@ def run_check(prop, tier, seed, replay=None, update_baseline=False):
             'obligations_excused_by_known_findings': [{'obligation': r['obligation'], 'finding': k['id'], 'verdict': r['verdict']}
                                                       for (r, k) in excused],
             'not_built': REG.not_built_for(prop),
-            'slowest_obligations': [{'obligation': r['obligation'], 's': r['s'], 'backend': r['backend']}
-                                    for r in sorted(all_results, key=lambda r: -(r.get('s') or 0))[:8]],
+            'slowest_obligations': [{'obligation': r['obligation'], 's': r['s'], 'backend': r['backend'],
+                                     'rlimit_used': r.get('rlimit_used'), 'rlimit_cap': r.get('rlimit_cap')}
+                                    for r in sorted(all_results, key=lambda r: -(r.get('rlimit_used') or 0))[:8]],
             'samples': [{'obligation': r['obligation'], 'kind': r['kind'], 'verdict': r['verdict'],
                          'backend': r['backend'], 's': r['s']} for r in all_results[:12]],
         },
@@ -223,6 +231,8 @@ def run_check(prop, tier, seed, replay=None, update_baseline=False):
           'solver %.1fs; wall %.1fs; exit %d'
           % (prop, tier, n_ob, n_dis, len(refuted), len(undecided), len(functions), solver_s,
              time.time() - t_start, exit_code))
+    slow = sorted(((out[k][1].get('wall_s', 0), k) for k in tasks), reverse=True)[:3]
+    print('  slowest tasks: ' + '; '.join('%s %.0fs' % (k.split(':')[-1][-60:], w) for w, k in slow))
     for k, e in unsupported:
         print('  UNDECIDED (unsupported construct) %s: %s' % (k, e[1]))
     for k, e in crashes:
